@@ -54,11 +54,17 @@ def scenario(name):
             [a.blocks, y.blocks]
     if name == 'idle':
         return base.blocks, {}, [('poll',), ('poll',)], [base.blocks]
+    if name.startswith('slow-daemon:'):
+        # the same scenario with a daemon whose every answer (height, hashes, each block
+        # download) is a separate scheduler step: the processing task is also stopped while it
+        # waits for a block that is still being downloaded
+        return scenario(name.split(':', 1)[1])
     raise common.Broken(name)
 
 
 SHAPES = ['initial-sync', 'new-blocks', 'two-at-once', 'natural-reorg', 'forced-reorg', 'idle',
-          'sync-fork']
+          'sync-fork', 'slow-daemon:initial-sync', 'slow-daemon:two-at-once',
+          'slow-daemon:natural-reorg']
 
 
 def job_name(job):
@@ -74,6 +80,7 @@ class Exec:
         self.m = world.Machine()
         self.w = world.World(self.m, reorg_limit=5, activation=ACT, prefetch=prefetch)
         w = self.w
+        self.slow_daemon = shape.startswith('slow-daemon:')
         w.flush_schedule = dict(fmap)
         self.started = False
         if setup_chain is not None:
@@ -82,6 +89,7 @@ class Exec:
             w.start_sync()
             w.run_until_caught_up()
             self.started = True
+        w.daemon.immediate = not self.slow_daemon
         self.w0_height = w.db.state.height if self.started else -1
         for ch in self.chains:
             w.daemon.add_known(ch)
@@ -129,6 +137,9 @@ class Exec:
         if active:
             self.runner.step(active[0])
             return 'J'
+        if w.daemon.pending:
+            w.daemon.deliver(w.daemon.pending[0])
+            return 'D'
         pending = [e for e in self.events if e[0] != 'chain_at']
         if pending:
             ev = pending[0]
@@ -186,6 +197,12 @@ class Exec:
                 if sj is not running or running.state != 'parked':
                     if ('J', sj) not in menu:
                         menu.append(('J', sj))
+            if w.daemon.pending and not w.bp_task.done():
+                # an answer of the daemon may still arrive after the stop (never the default)
+                menu.append(('D', None))
+                if len(menu) == 1:
+                    # nothing else is enabled: the processing task must not depend on it
+                    break
             if not menu:
                 break
             c = choices[pos] if pos < len(choices) else 0
@@ -197,6 +214,8 @@ class Exec:
             kind, sj = menu[c]
             if kind == 'L':
                 loop.step_ready()
+            elif kind == 'D':
+                w.daemon.deliver(w.daemon.pending[0])
             else:
                 state = self.runner.step(sj)
                 running = sj if state == 'parked' else None
